@@ -578,6 +578,7 @@ Qed.
 
 Record Casc (st st' : state) : Prop := mkCasc
   { ca_sigs : sigs st' = sigs st
+  ; ca_iid : next_iid st' = next_iid st
   ; ca_tracks : tlive_same st st'
   ; ca_impls : forall i, match aget i (impls st), aget i (impls st') with
                          | Some im, Some im' => impl_same im im'
@@ -587,13 +588,13 @@ Record Casc (st st' : state) : Prop := mkCasc
 
 Lemma Casc_refl st : Casc st st.
 Proof.
-  constructor; [reflexivity|apply tlive_same_refl|].
+  constructor; [reflexivity|reflexivity|apply tlive_same_refl|].
   intro i. destruct (aget i (impls st)); [apply impl_same_refl|exact I].
 Qed.
 
 Lemma Casc_trans a b c : Casc a b -> Casc b c -> Casc a c.
 Proof.
-  intros [] []. constructor; [congruence|eapply tlive_same_trans; eauto|].
+  intros [] []. constructor; [congruence|congruence|eapply tlive_same_trans; eauto|].
   intro i. specialize (ca_impls0 i). specialize (ca_impls1 i).
   destruct (aget i (impls a)), (aget i (impls b)), (aget i (impls c)); try tauto.
   eapply impl_same_trans; eauto.
@@ -601,7 +602,7 @@ Qed.
 
 Lemma Casc_heavy st st' : same_heavy st st' -> tlive_same st st' -> Casc st st'.
 Proof.
-  intros [] T. constructor; [assumption|assumption|].
+  intros [] T. constructor; [assumption|assumption|assumption|].
   intro i. rewrite sh_impls0. destruct (aget i (impls st)); [apply impl_same_refl|exact I].
 Qed.
 
@@ -804,7 +805,7 @@ Qed.
 Lemma Casc_set_sb l sb' st : Casc st (set_sb l sb' st).
 Proof.
   destruct (set_sb_other_fields l sb' st) as (H1 & H2 & H3 & H4 & H5 & H6 & H7 & H8).
-  constructor; [exact H1|apply tlive_tracks_eq; exact H2|].
+  constructor; [exact H1|exact H7|apply tlive_tracks_eq; exact H2|].
   intro j. destruct l as [s|i n]; unfold set_sb.
   - cbn [impls with_slots]. destruct (aget j (impls st)); [apply impl_same_refl|exact I].
   - destruct (aget i (impls st)) as [im|] eqn:Hi.
@@ -916,7 +917,7 @@ Lemma Casc_of_set_impl st st' i im im' :
   same_heavy (set_impl i im' st) st' -> tlive_same st st' -> Casc st st'.
 Proof.
   intros Hi Hsame [] T. cbn [set_impl slots sigs next_rid next_nid next_iid next_ph with_impls] in *.
-  constructor; [assumption|assumption|].
+  constructor; [assumption|assumption|assumption|].
   intro j. rewrite sh_impls0, aget_set_impl. destruct (N.eqb_spec j i) as [->|Hn].
   - rewrite Hi. exact Hsame.
   - destruct (aget j (impls st)); [apply impl_same_refl|exact I].
@@ -1218,7 +1219,7 @@ Proof.
     - eapply sig_ok_set_track; eauto.
     - eapply watch_ok_ex_transfer; [| | |exact Hw]; reflexivity. }
   assert (Hcasc : Casc st (set_track t (mkTr None false) st2)).
-  { destruct C2. constructor; [exact ca_sigs0| |exact ca_impls0].
+  { destruct C2. constructor; [exact ca_sigs0|exact ca_iid0| |exact ca_impls0].
     intro t'. destruct (ca_tracks0 t') as (A & B & _). split; [|split].
     - unfold set_track. cbn [tracks with_tracks]. rewrite aget_aset. destruct (N.eqb_spec t' t) as [->|Hn].
         * unfold live_track in Hl. destruct (aget t (tracks st)) as [[x|]|]; try discriminate. split; discriminate.
@@ -1348,7 +1349,7 @@ Proof. intros [] T. constructor; try assumption. lia. Qed.
 
 Lemma Grow_Casc st st' : Grow st st' -> Casc st st'.
 Proof.
-  intros []. constructor; [assumption|assumption|]. intro i. rewrite gr_impls0.
+  intros []. constructor; [assumption|assumption|assumption|]. intro i. rewrite gr_impls0.
   destruct (aget i (impls st)); [apply impl_same_refl|exact I].
 Qed.
 
@@ -1752,6 +1753,7 @@ Proof.
       * rewrite <- G1. unfold st2, st1. destruct (sb_rep sb); reflexivity.
   - constructor.
     + unfold st2, st1. destruct (sb_rep sb); reflexivity.
+    + unfold st2, st1. destruct (sb_rep sb); reflexivity.
     + apply tlive_tracks_eq. unfold st2, st1. destruct (sb_rep sb); reflexivity.
     + intro j. rewrite aget_set_impl. destruct (N.eqb_spec j i) as [->|Hne].
       * rewrite Hi. split; [reflexivity|]. split; [reflexivity|]. split; [reflexivity|]. split; [|split; [reflexivity|]].
@@ -1943,24 +1945,25 @@ Qed.
 
 Record FrameI (i : N) (st st' : state) : Prop := mkFrameI
   { fi_sigs : sigs st' = sigs st
+  ; fi_iid : next_iid st' = next_iid st
   ; fi_tracks : tlive_same st st'
   ; fi_others : forall j, j <> i -> aget j (impls st') = aget j (impls st) }.
 
 Lemma FrameI_refl i st : FrameI i st st.
-Proof. constructor; [reflexivity|apply tlive_same_refl|reflexivity]. Qed.
+Proof. constructor; [reflexivity|reflexivity|apply tlive_same_refl|reflexivity]. Qed.
 
 Lemma FrameI_trans i a b c : FrameI i a b -> FrameI i b c -> FrameI i a c.
 Proof.
-  intros [S1 T1 O1] [S2 T2 O2]. constructor; [congruence|eapply tlive_same_trans; eauto|].
+  intros [S1 N1 T1 O1] [S2 N2 T2 O2]. constructor; [congruence|congruence|eapply tlive_same_trans; eauto|].
   intros j Hj. rewrite (O2 j Hj). apply O1. exact Hj.
 Qed.
 
 Lemma FrameI_heavy i st st' : same_heavy st st' -> tlive_same st st' -> FrameI i st st'.
-Proof. intros [] T. constructor; [assumption|exact T|]. intros j _. rewrite sh_impls0. reflexivity. Qed.
+Proof. intros [] T. constructor; [assumption|assumption|exact T|]. intros j _. rewrite sh_impls0. reflexivity. Qed.
 
 Lemma FrameI_set_impl i im' st : FrameI i st (set_impl i im' st).
 Proof.
-  constructor; [reflexivity|apply tlive_tracks_eq; reflexivity|]. intros j Hj. rewrite aget_set_impl.
+  constructor; [reflexivity|reflexivity|apply tlive_tracks_eq; reflexivity|]. intros j Hj. rewrite aget_set_impl.
   destruct (N.eqb_spec j i); [contradiction|reflexivity].
 Qed.
 
@@ -1971,7 +1974,7 @@ Lemma FrameI_Casc i st st' : FrameI i st st' ->
   | _, _ => False
   end -> Casc st st'.
 Proof.
-  intros [S T O] Hi. constructor; [exact S|exact T|]. intro j. destruct (N.eq_dec j i) as [->|Hn]; [exact Hi|].
+  intros [S N0 T O] Hi. constructor; [exact S|exact N0|exact T|]. intro j. destruct (N.eq_dec j i) as [->|Hn]; [exact Hi|].
   rewrite (O j Hn). destruct (aget j (impls st)); [apply impl_same_refl|exact I].
 Qed.
 
@@ -1983,7 +1986,7 @@ Proof.
   - destruct (rep_disconnect_ok (LNode i n) st Hc) as (st1 & E1 & W1 & C1 & (_ & O1)).
     rewrite E1. cbn [rbind]. destruct (IH st1 W1) as (st2 & E2 & W2 & C2 & F2).
     exists st2. split; [exact E2|]. split; [exact W2|]. split; [eapply Casc_trans; eauto|].
-    eapply FrameI_trans; [|exact F2]. constructor; [exact (ca_sigs _ _ C1)|exact (ca_tracks _ _ C1)|].
+    eapply FrameI_trans; [|exact F2]. constructor; [exact (ca_sigs _ _ C1)|exact (ca_iid _ _ C1)|exact (ca_tracks _ _ C1)|].
     intros j Hj. apply O1. intros n' X. inversion X. congruence.
 Qed.
 
@@ -2092,6 +2095,7 @@ Proof.
       * rewrite aget_adel_other by exact Hne. exact A1.
   - constructor.
     + cbn [sigs with_impls]. exact Hsig4.
+    + cbn [next_iid with_impls]. destruct H4. rewrite sh_iid0. cbn [next_iid set_impl with_impls]. exact (fi_iid _ _ _ F2).
     + eapply tlive_same_trans; [apply (fi_tracks _ _ _ (FrameI_set_impl i im1 st))|].
       eapply tlive_same_trans; [exact (fi_tracks _ _ _ F2)|]. exact T4.
     + intros j Hj. cbn [impls with_impls]. rewrite aget_adel_other by exact Hj.
@@ -2171,6 +2175,7 @@ Proof.
   split; [|split; [|split; [|split; [|split; [|split; [|split]]]]]].
   - constructor.
     + destruct H1. rewrite sh_sigs0. cbn [sigs set_impl with_impls]. exact (ca_sigs _ _ C0).
+    + destruct H1. rewrite sh_iid0. cbn [next_iid set_impl with_impls]. exact (ca_iid _ _ C0).
     + eapply tlive_same_trans; [exact (ca_tracks _ _ C0)|exact T1].
     + intros j Hj. rewrite Himpls, aget_set_impl. destruct (N.eqb_spec j i); [contradiction|].
       apply I0. intros n' X. inversion X. congruence.
@@ -2360,4 +2365,156 @@ Proof.
   - exists st1. split; [reflexivity|]. split; [exact Hc1|]. split; [apply FrameI_set_impl|]. split; [reflexivity|].
     right. exists im1. split; [exact Hi1|]. cbn [im1 i_exec i_holders i_dying i_deferred i_nodes with_exec].
     repeat (split; [reflexivity|]). split; [intro X; contradiction|lia].
+Qed.
+
+(* ------------------------------------------------------------------ *)
+(* impl_clear, block, ensure_impl                                       *)
+
+Lemma impl_clear_ok i im st : WFc st -> aget i (impls st) = Some im ->
+  (i_exec im = 0 -> i_deferred im = false) ->
+  exists st', impl_clear i st = Ok st' /\ WFc st' /\ Casc st st'.
+Proof.
+  intros Hc Hi Hdef. unfold impl_clear. rewrite Hi.
+  set (im1 := with_exec (i_exec im + 1) im). set (st1 := set_impl i im1 st).
+  assert (Hi1 : aget i (impls st1) = Some im1) by (unfold st1; rewrite aget_set_impl, N.eqb_refl; reflexivity).
+  assert (Hc1 : WFc st1) by (eapply WFc_set_impl_flags; eauto).
+  destruct (disconnect_nodes_ok i (map n_id (i_nodes im)) st1 Hc1) as (st2 & E2 & W2 & C2 & F2).
+  rewrite E2. cbn [rbind].
+  destruct (Casc_impl_some _ _ _ _ C2 Hi1) as (im2 & Hi2 & (S1 & S2 & S3 & S4 & S5 & S6)).
+  cbn [im1 i_exec i_holders i_dying i_nodes with_exec] in S1, S2, S3, S4, S6.
+  destruct (N.eqb_spec (i_exec im) 0) as [Hz|Hnz]; cbn [negb].
+  - (* not during an emission: the list is cleared *)
+    rewrite Hi2.
+    set (imc := with_nodes [] (with_deferred (i_deferred im) im2)).
+    destruct (clear_nodes_ok i im2 imc st2 W2 Hi2 eq_refl) as (st3 & E3 & W3 & H3 & T3).
+    rewrite E3. cbn [rbind].
+    assert (Hi3 : aget i (impls st3) = Some imc) by (destruct H3; rewrite sh_impls0, aget_set_impl, N.eqb_refl; reflexivity).
+    destruct (unreference_exec_ok i imc st3 W3 Hi3) as (st' & E' & W' & F' & P' & _).
+    exists st'. split; [exact E'|]. split; [exact W'|].
+    assert (Est' : st' = set_impl i (with_exec (i_exec imc - 1) imc) st3).
+    { apply P'. right. cbn [imc i_deferred with_nodes with_deferred]. apply Hdef. exact Hz. }
+    eapply (FrameI_Casc i).
+    + eapply FrameI_trans; [apply FrameI_set_impl|]. eapply FrameI_trans; [exact F2|].
+      eapply FrameI_trans; [|exact F']. eapply FrameI_trans; [apply (FrameI_set_impl i imc st2)|].
+      apply FrameI_heavy; [exact H3|]. eapply tlive_same_trans; [|exact T3]. apply tlive_tracks_eq. reflexivity.
+    + rewrite Hi, Est', aget_set_impl, N.eqb_refl.
+      split; [|split; [|split; [|split; [|split]]]]; cbn [imc i_exec i_holders i_dying i_deferred i_nodes with_exec with_nodes with_deferred].
+      * rewrite S1. lia.
+      * exact S2.
+      * exact S3.
+      * intro X. lia.
+      * intros _. reflexivity.
+      * cbn [ids map phc filter length]. lia.
+  - (* during an emission: slots are only disconnected *)
+    destruct (unreference_exec_ok i im2 st2 W2 Hi2) as (st' & E' & W' & F' & P' & _).
+    exists st'. split; [exact E'|]. split; [exact W'|].
+    assert (Est' : st' = set_impl i (with_exec (i_exec im2 - 1) im2) st2).
+    { apply P'. left. rewrite S1. lia. }
+    eapply (FrameI_Casc i).
+    + eapply FrameI_trans; [apply FrameI_set_impl|]. eapply FrameI_trans; [exact F2|exact F'].
+    + rewrite Hi, Est', aget_set_impl, N.eqb_refl.
+      split; [|split; [|split; [|split; [|split]]]]; cbn [i_exec i_holders i_dying i_deferred i_nodes with_exec].
+      * rewrite S1. lia.
+      * exact S2.
+      * exact S3.
+      * intros _. apply S4. lia.
+      * intro X. contradiction.
+      * exact S6.
+Qed.
+
+Lemma nodes_reps_map_blocked b l :
+  nodes_reps (map (fun x => mkNode (n_id x) (mkSB (sb_rep (n_sb x)) b)) l) = nodes_reps l.
+Proof.
+  induction l as [|x l IH]; [reflexivity|]. cbn [map]. rewrite !nodes_reps_cons, IH. reflexivity.
+Qed.
+
+Lemma ids_map_blocked b l : ids (map (fun x => mkNode (n_id x) (mkSB (sb_rep (n_sb x)) b)) l) = ids l.
+Proof. unfold ids. rewrite map_map. reflexivity. Qed.
+
+Lemma find_node_map_blocked b n l :
+  find_node n (map (fun x => mkNode (n_id x) (mkSB (sb_rep (n_sb x)) b)) l) =
+  option_map (fun x => mkNode (n_id x) (mkSB (sb_rep (n_sb x)) b)) (find_node n l).
+Proof.
+  induction l as [|x l IH]; [reflexivity|]. cbn [map find_node n_id].
+  destruct (nid_eqb (n_id x) n); [reflexivity|exact IH].
+Qed.
+
+Lemma block_all_ok i im b st : WFc st -> aget i (impls st) = Some im ->
+  WFc (set_impl i (with_nodes (map (fun x => mkNode (n_id x) (mkSB (sb_rep (n_sb x)) b)) (i_nodes im)) im) st) /\
+  Casc st (set_impl i (with_nodes (map (fun x => mkNode (n_id x) (mkSB (sb_rep (n_sb x)) b)) (i_nodes im)) im) st).
+Proof.
+  intros [Hs Hr Hg Hw] Hi.
+  set (f := fun x => mkNode (n_id x) (mkSB (sb_rep (n_sb x)) b)).
+  set (im' := with_nodes (map f (i_nodes im)) im).
+  assert (E1 : i_nodes im = [] ++ i_nodes im ++ []) by (rewrite app_nil_r; reflexivity).
+  assert (E2 : i_nodes im' = [] ++ map f (i_nodes im) ++ []) by (rewrite app_nil_r; reflexivity).
+  destruct (set_impl_nodes_reps st i im im' _ _ _ _ Hi E1 E2) as (L & R & Ea & Ea').
+  unfold f in Ea'. rewrite nodes_reps_map_blocked in Ea'. fold f in Ea'.
+  split.
+  - constructor.
+    + eapply (WFstruct_set_impl st i im im' [] (i_nodes im) (map f (i_nodes im)) []); eauto.
+      * cbn [im' i_nodes with_nodes]. unfold f. rewrite ids_map_blocked. exact (proj1 (ws_nodes _ Hs i im Hi)).
+      * unfold f. rewrite ids_map_blocked. exact (proj2 (ws_nodes _ Hs i im Hi)).
+      * unfold f. rewrite nodes_reps_map_blocked. eapply reps_upd_refl; eauto using ws_rids, ws_good.
+    + rewrite Ea', <- Ea. eapply regs_tracks_eq; [|exact Hr]. reflexivity.
+    + apply sig_ok_set_impl. exact Hg.
+    + intros w j m Hp. destruct (Hw w j m Hp) as [[]|(sb & r & G1 & G2 & G3)]. right. unfold target_ok.
+      rewrite get_sb_set_impl_node. destruct (N.eqb_spec j i) as [->|Hne]; [|exists sb, r; auto].
+      rewrite get_sb_node, Hi in G1. cbn [im' i_nodes with_nodes]. unfold f. rewrite find_node_map_blocked.
+      destruct (find_node m (i_nodes im)) as [nd|]; [|discriminate]. cbn [option_map] in *. inversion G1; subst sb.
+      eexists _, r. split; [reflexivity|]. split; [exact G2|exact G3].
+  - eapply (FrameI_Casc i); [apply FrameI_set_impl|]. rewrite Hi, aget_set_impl, N.eqb_refl.
+    apply impl_same_ids; cbn [im' i_exec i_holders i_dying i_deferred i_nodes with_nodes]; auto.
+    unfold f. apply ids_map_blocked.
+Qed.
+
+Lemma live_sig_aset g g' o st :
+  live_sig g' (with_sigs (aset g o (sigs st)) st) = if N.eqb g' g then o else live_sig g' st.
+Proof.
+  unfold live_sig. cbn [sigs with_sigs]. rewrite aget_aset. destruct (N.eqb g' g); [destruct o|]; reflexivity.
+Qed.
+
+Lemma ensure_impl_ok g go st : WFc st -> live_sig g st = Some go ->
+  exists i st', ensure_impl g go st = (i, st') /\ WFc st' /\ aget i (impls st') <> None /\
+    live_sig g st' = Some (mkSig (g_kind go) (Some i)) /\
+    ((g_impl go = Some i /\ st' = st) \/
+     (g_impl go = None /\ i = next_iid st /\
+      st' = with_sigs (aset g (Some (mkSig (g_kind go) (Some i))) (sigs st))
+              (set_impl i (mkImpl [] 0 false 0 false) (with_next_iid (i + 1) st)))).
+Proof.
+  intros Hc Hl. unfold ensure_impl. destruct (g_impl go) as [i|] eqn:Hgi.
+  - exists i, st. split; [reflexivity|]. split; [exact Hc|]. split; [eapply (proj2 (wc_sig _ Hc)); eauto|].
+    split; [|left; auto]. rewrite Hl. destruct go; cbn in *. subst. reflexivity.
+  - set (i := next_iid st). eexists i, _. split; [reflexivity|].
+    set (st1 := set_impl i (mkImpl [] 0 false 0 false) (with_next_iid (i + 1) st)).
+    set (st2 := with_sigs (aset g (Some (mkSig (g_kind go) (Some i))) (sigs st1)) st1).
+    destruct Hc as [Hs Hr Hg Hw].
+    assert (Hn : aget i (impls st) = None).
+    { apply aget_none_iff. intro Hin. pose proof (ws_iid _ Hs _ Hin). unfold i in *. lia. }
+    assert (Hs1 : WFstruct st1) by (apply WFstruct_new_impl; exact Hs).
+    assert (Ea : all_reps st2 = all_reps st).
+    { unfold all_reps, var_reps, node_reps, st2, st1, set_impl. cbn [slots impls with_impls with_next_iid with_sigs].
+      rewrite (node_reps_absent _ _ _ Hn). cbn [i_nodes nodes_reps flat_map]. rewrite app_nil_r. reflexivity. }
+    assert (Hi2 : aget i (impls st2) = Some (mkImpl [] 0 false 0 false)).
+    { unfold st2. cbn [impls with_sigs]. unfold st1. rewrite aget_set_impl, N.eqb_refl. reflexivity. }
+    split; [|split; [rewrite Hi2; discriminate|split; [|right; auto]]].
+    + constructor.
+      * eapply WFstruct_mono; [| | | | | |exact Hs1]; try reflexivity; lia.
+      * rewrite Ea. eapply regs_tracks_eq; [|exact Hr]. reflexivity.
+      * destruct Hg as [G1 G2]. split.
+        -- intro g'. destruct (G1 g') as [A B]. unfold st2. rewrite live_sig_aset. split.
+           ++ destruct (N.eqb_spec g' g) as [->|Hne]; [|exact A].
+              rewrite Hl in A. split.
+              ** intro X. destruct (proj1 A X) as (go' & E & K). inversion E; subst go'. eexists. split; [reflexivity|exact K].
+              ** intros (go' & E & K). inversion E; subst go'. apply (proj2 A). exists go. auto.
+           ++ cbn [sigs with_sigs tracks]. rewrite aget_aset. destruct (N.eqb_spec g' g) as [->|Hne]; [discriminate|exact B].
+        -- intros g' go' j Hl' Hj. unfold st2 in Hl'. rewrite live_sig_aset in Hl'.
+           unfold st2. cbn [impls with_sigs]. unfold st1. destruct (N.eqb_spec g' g) as [->|Hne].
+           ++ inversion Hl'; subst go'. cbn [g_impl] in Hj. inversion Hj; subst j. rewrite aget_set_impl, N.eqb_refl. discriminate.
+           ++ apply set_impl_present. eapply G2; eauto.
+      * intros w j m Hp. destruct (Hw w j m) as [[]|(sb & r & A1 & A2 & A3)].
+        { rewrite <- Hp. destruct w; reflexivity. }
+        right. exists sb, r. split; [|auto]. rewrite get_sb_node in *. unfold st2. cbn [impls with_sigs]. unfold st1.
+        rewrite aget_set_impl. destruct (N.eqb_spec j i) as [->|Hne]; [rewrite Hn in A1; discriminate|exact A1].
+    + unfold st2. rewrite live_sig_aset, N.eqb_refl. reflexivity.
 Qed.
